@@ -5640,3 +5640,249 @@ func ruleAttrFeeGate(c *Ctx) {
 	}
 	c.Floor("attribute kinds with a fee arm of their own", n, 2)
 }
+
+// ---------------------------------------------------------------------------
+// Clauses written for the seeds of round 6.
+
+// slotReleaseUnconditional (slot-scope, C12): Slot.init counts one reference per entry, assigned or not (a never
+// assigned local is a counted Null); clearRefs must therefore release every entry, assigned or not: its refs.Remove
+// is not nested in any condition.
+func slotReleaseUnconditional(c *Ctx) {
+	fd := c.P.Func("pkg/vm", "Slot", "clearRefs")
+	if fd == nil {
+		c.Lost("clear-unconditional.anchor", "Slot.clearRefs not found")
+		return
+	}
+	f := c.P.NewFuncCFG(fd)
+	n, bad := 0, token.NoPos
+	var stack []ast.Node
+	ast.Inspect(fd.Decl.Body, func(x ast.Node) bool {
+		if x == nil {
+			stack = stack[:len(stack)-1]
+			return true
+		}
+		stack = append(stack, x)
+		if call, ok := x.(*ast.CallExpr); ok && f.calleeSym(call) == "pkg/vm.(*refCounter).Remove" {
+			n++
+			for _, a := range stack {
+				switch a.(type) {
+				case *ast.IfStmt, *ast.SwitchStmt, *ast.TypeSwitchStmt:
+					bad = call.Pos()
+				}
+			}
+		}
+		return true
+	})
+	switch {
+	case n == 0:
+		c.Fail("clear-unconditional", c.P.Pos(fd.Decl.Pos()), "Slot.clearRefs no longer releases the slot's entries: every frame leaves its locals counted")
+	case bad.IsValid():
+		c.Fail("clear-unconditional", c.P.Pos(bad), "Slot.clearRefs releases an entry only under a condition, while Slot.init counts every entry - also those never assigned (counted as Null): each unload of a frame with unassigned locals leaves them counted and the 2048 limit is reached by a script that holds nothing")
+	default:
+		c.OK("clear-unconditional", c.P.Pos(fd.Decl.Pos()), "every entry of an unloaded slot is released, assigned or not - as every entry was counted by init")
+	}
+}
+
+// jumpTipRecorded (stage-machine, C02/C20): the state jump makes block P the current block in the database in the
+// same batch that records the stage "stale blocks removed"; a path to that marker which does not pass
+// StoreAsCurrentBlock leaves the old tip (genesis) on disk over the state of P - a restart before the next block
+// comes back at height 0 and starts the jump again over an emptied storage prefix.
+func jumpTipRecorded(c *Ctx) {
+	fd := c.P.Func("pkg/core", "Blockchain", "jumpToStateInternal")
+	if fd == nil {
+		c.Lost("jump-tip-recorded.anchor", "jumpToStateInternal not found")
+		return
+	}
+	f := c.P.NewFuncCFG(fd)
+	var markers []site
+	for _, b := range f.G.Blocks {
+		if !b.Live {
+			continue
+		}
+		for i, nd := range b.Nodes {
+			hit := false
+			inspectNoLit(nd, func(x ast.Node) bool {
+				if call, ok := x.(*ast.CallExpr); ok && len(call.Args) == 2 {
+					m1 := f.DirectMentions(call.Args[1])
+					if strings.HasSuffix(f.calleeSym(call), ".Put") && m1["pkg/core.staleBlocksRemoved"] {
+						hit = true
+					}
+				}
+				return true
+			})
+			if hit {
+				markers = append(markers, site{blk: b, idx: i, node: nd})
+			}
+		}
+	}
+	stores := f.CallSites("pkg/core/dao.(*Simple).StoreAsCurrentBlock")
+	if len(markers) == 0 || len(stores) == 0 {
+		c.Lost("jump-tip-recorded.sites", fmt.Sprintf("marker writes: %d, StoreAsCurrentBlock calls: %d", len(markers), len(stores)))
+		return
+	}
+	if ok, path := f.mustBefore(f.Entry(), markers, stores, nil); ok {
+		c.OK("jump-tip-recorded", c.P.Pos(stores[0].call.Pos()), "every path to the 'stale blocks removed' marker records block P as the current block first")
+	} else {
+		c.Fail("jump-tip-recorded", c.P.Pos(markers[0].node.Pos()), "the state jump can record the stage 'stale blocks removed' without having stored block P as the current block: the database keeps the old tip over the state of P, and a restart before the next block comes back at the old height and starts the jump again", path...)
+	}
+}
+
+// cleanBeforeSync (sync-guards, C11/C20): before a synchronisation starts on a genesis-only database the MPT records
+// of the genesis state are removed, whatever the way the state is going to be delivered: the storage-item based sync
+// builds its trie with PutBatch/Flush over what is in the store, so leftovers stay active outside any retained root
+// and shared nodes start from the genesis counter. The call of CleanStorage in Module.Init is not conditioned on the
+// synchronisation mode.
+func cleanBeforeSync(c *Ctx) {
+	fd := c.P.Func("pkg/core/statesync", "Module", "Init")
+	if fd == nil {
+		c.Lost("clean-before-sync.anchor", "statesync.Module.Init not found")
+		return
+	}
+	f := c.P.NewFuncCFG(fd)
+	n, bad := 0, ""
+	var stack []ast.Node
+	ast.Inspect(fd.Decl.Body, func(x ast.Node) bool {
+		if x == nil {
+			stack = stack[:len(stack)-1]
+			return true
+		}
+		stack = append(stack, x)
+		if call, ok := x.(*ast.CallExpr); ok && strings.HasSuffix(f.calleeSym(call), ".CleanStorage") {
+			n++
+			for _, a := range stack {
+				if is, ok := a.(*ast.IfStmt); ok {
+					for s := range f.DirectMentions(is.Cond) {
+						if strings.HasSuffix(s, "statesync#mode") || strings.HasSuffix(s, "MPTBased") || strings.HasSuffix(s, "ContractStorageBased") {
+							bad = types.ExprString(is.Cond)
+						}
+					}
+				}
+			}
+		}
+		return true
+	})
+	switch {
+	case n == 0:
+		c.Fail("clean-before-sync", c.P.Pos(fd.Decl.Pos()), "Module.Init no longer removes the genesis state's MPT records before a synchronisation starts")
+	case bad != "":
+		c.Fail("clean-before-sync", c.P.Pos(fd.Decl.Pos()), fmt.Sprintf("Module.Init removes the genesis state's MPT records only in one synchronisation mode (%s): in the other the trie of the sync point is built over the leftovers - genesis-only nodes stay active outside any retained root and shared nodes keep the genesis counter", bad))
+	default:
+		c.OK("clean-before-sync", c.P.Pos(fd.Decl.Pos()), "the genesis state's MPT records are removed before a synchronisation starts, in every mode")
+	}
+}
+
+// ringWindowGate (chan-typestate's neighbour, C20): an element enters the ring only if its index lies within
+// [height+1, height+cacheSize]: the slot of index i is also the slot of i-cacheSize, so an element from beyond the
+// window lands on a pending element of the current one. Every path of Put to the store into the ring passes a
+// comparison of the element's index with the chain height plus the cache size whose outcome is "inside the window" -
+// the entry test and the re-test of the blocking mode's wait loop alike.
+func ringWindowGate(c *Ctx) {
+	fd := c.P.Func("pkg/network/bqueue", "Queue", "Put")
+	if fd == nil {
+		c.Lost("ring-window.anchor", "Queue.Put not found")
+		return
+	}
+	f := c.P.NewFuncCFG(fd)
+	var stores []site
+	for _, w := range f.WriteSites("pkg/network/bqueue#queue") {
+		stores = append(stores, w)
+	}
+	if len(stores) == 0 {
+		c.Lost("ring-window.store", "no store into the ring found in Put")
+		return
+	}
+	// window tests: conditions mentioning cacheSize and GetIndex; the "inside" outcome is the false branch of
+	// `h+size < idx` and the true branch of `h+size >= idx`
+	isWindow := func(e ast.Expr) (inside bool, ok bool) {
+		be, isB := ast.Unparen(e).(*ast.BinaryExpr)
+		if !isB {
+			return false, false
+		}
+		m := f.DirectMentions(be)
+		if !m["pkg/network/bqueue#cacheSize"] {
+			return false, false
+		}
+		idxLeft := f.DirectMentions(be.X)["pkg/network/bqueue.(Indexable).GetIndex"] || mentionsSuffix(f.DirectMentions(be.X), ".GetIndex")
+		idxRight := mentionsSuffix(f.DirectMentions(be.Y), ".GetIndex")
+		if idxLeft == idxRight {
+			return false, false
+		}
+		op := be.Op
+		if idxLeft { // idx OP h+size  ==  h+size OP' idx
+			op = map[token.Token]token.Token{token.LSS: token.GTR, token.GTR: token.LSS, token.LEQ: token.GEQ, token.GEQ: token.LEQ}[op]
+		}
+		switch op {
+		case token.GEQ, token.GTR:
+			return true, true // h+size >= idx is the inside outcome when true
+		case token.LSS, token.LEQ:
+			return false, true // h+size < idx: inside when false
+		}
+		return false, false
+	}
+	// structure: the entry test `height+size < index` guards the out-of-window handling; whatever leaves that handling
+	// towards the store (a break out of the wait loop) must sit under a window test that came out "inside"
+	nEntry, nBreak := 0, 0
+	bad := token.NoPos
+	ast.Inspect(fd.Decl.Body, func(x ast.Node) bool {
+		is, ok := x.(*ast.IfStmt)
+		if !ok {
+			return true
+		}
+		in, isW := isWindow(is.Cond)
+		if !isW || in {
+			return true
+		}
+		nEntry++
+		// loops inside the out-of-window branch
+		ast.Inspect(is.Body, func(y ast.Node) bool {
+			var body *ast.BlockStmt
+			switch l := y.(type) {
+			case *ast.ForStmt:
+				body = l.Body
+			case *ast.RangeStmt:
+				body = l.Body
+			default:
+				return true
+			}
+			// breaks that leave this loop: not nested in an inner loop/switch/select
+			var walk func(n ast.Node, conds []ast.Expr)
+			walk = func(n ast.Node, conds []ast.Expr) {
+				switch z := n.(type) {
+				case *ast.BlockStmt:
+					for _, st := range z.List {
+						walk(st, conds)
+					}
+				case *ast.IfStmt:
+					walk(z.Body, append(append([]ast.Expr{}, conds...), z.Cond))
+					if z.Else != nil {
+						walk(z.Else, conds)
+					}
+				case *ast.BranchStmt:
+					if z.Tok == token.BREAK && z.Label == nil {
+						nBreak++
+						okb := false
+						for _, cnd := range conds {
+							if in2, w2 := isWindow(cnd); w2 && in2 {
+								okb = true
+							}
+						}
+						if !okb {
+							bad = z.Pos()
+						}
+					}
+				}
+			}
+			walk(body, nil)
+			return false
+		})
+		return true
+	})
+	switch {
+	case nEntry == 0:
+		c.Fail("ring-window", c.P.Pos(fd.Decl.Pos()), "Queue.Put no longer compares the element's index with height+cacheSize: elements from beyond the window land on pending elements of the current one")
+	case bad.IsValid():
+		c.Fail("ring-window", c.P.Pos(bad), "the wait loop of Queue.Put (blocking mode) is left towards the store into the ring under a condition that is not 'index <= height+cacheSize': the slot of index i is the slot of i-cacheSize, so the far-ahead element replaces - or pre-empts - the element the ledger needs next, and nobody delivers that one again")
+	default:
+		c.OK("ring-window", c.P.Pos(stores[0].node.Pos()), fmt.Sprintf("the out-of-window branch of Put is left towards the store only under a window test that came out inside (%d exit(s))", nBreak))
+	}
+}
